@@ -280,7 +280,11 @@ func trimValidIPv6Field(s string, gotFields int, hasEllipsis bool) (withoutField
 
 	if s[fieldLen] == '.' {
 		// Probably an IPv4 in the end.
-		return "", hasEllipsis == (gotFields < maxIPv6FieldsNum-2) && isValidIPv4String(s)
+		const maxFieldsBeforeIPv4 = maxIPv6FieldsNum - 2
+
+		return "", gotFields <= maxFieldsBeforeIPv4 &&
+			hasEllipsis == (gotFields < maxFieldsBeforeIPv4) &&
+			isValidIPv4String(s)
 	}
 
 	return s[fieldLen:], true
